@@ -263,10 +263,11 @@ Twice1(v)     == <<2 * v[1] - v[2], v[2]>>      \* 2v - 1
 \* byte(int(127 * n/d)) for 0 <= n/d <= 1
 Scale127(q) == MulDivFloor(127, q[1], q[2])
 
-\* PitchBendEvent(ch, b) for b in [-1, 1]: 14-bit value; centre 8192, ends 0 and 16383
+\* PitchBendEvent(ch, b) for b in [-1, 1] (event.go:140-146): the 14-bit value nearest to
+\* 16383 * (b + 1) / 2, halves rounded up: centre 8192, end stops 0 and 16383
 PBValue(b) ==
-  IF b[1] < 0 THEN 8192 - MulDivFloor(8192, -b[1], b[2])
-  ELSE 8192 + MulDivFloor(8191, b[1], b[2])
+  LET q == MulDivR(16383, b[1] + b[2], 2 * b[2])       \* floor and remainder of 16383*(b+1)/2
+  IN q[1] + (IF 2 * q[2] >= 2 * b[2] THEN 1 ELSE 0)
 
 AnalogPitch(c, s, note) == note + 12 * s.oct + s.semi
 
